@@ -8,6 +8,7 @@ from lib.ast import walk, decode_atom, NS_SHORT, expanded_names_in_pat
 from lib.flat import show
 from lib.mir import AnchorMissing
 from . import nf_common, nfq
+from .guardlib import gval, comparisons, lt_true, ge_true
 
 MANIFEST = {
     "text": "Transcription, table and sibling-agreement rules for the tree builder. (a) The rows of all 21 insertion modes: for every (mode, token class) and every valuation of the conditions either side tests, the steps the code performs (one helper call = one step of the standard) equal an independent transcription of the standard's paragraphs (R02.11, 515 rows); the tag dispatch groups names exactly as the standard's paragraphs do (R02.8); foreign-content rows and foreign element insertion (R02.12); 'reset the insertion mode' (R02.10). (b) Tables: the standard's name sets and limits (implied end tags, scopes incl. their MathML/SVG members, special category's foreign members, table contexts, integration points, formatting elements, break-out list, text-mode elements; 8/3/3), the five quirks-mode identifier tables and their decision order, the SVG/MathML/foreign adjustment tables (value sets equal the standard's, key = lower-cased value, injective) (R02.1, R02.2, R02.9). (c) Sibling agreement of the element -> tokenizer-state map (R02.3); set_quirks_mode call sites (R02.5); scope choices (R02.7). (d) Every function of tree_builder/ equals its reviewed normal form (R02.4, R02.6).",
@@ -277,11 +278,15 @@ def r02_1(ctx):
     blob = " ".join(" ".join(nfq.texts(pc)) + " " + " ".join(pc["guards"]) for pc in aa)
     m = re.search(r"loop-begin for _ in 0\.\.(\d+)", blob)
     ctx.ob("R02.1", "constant/adoption-outer-loop", bool(m) and int(m.group(1)) == SPEC["adoption_outer_loop_limit"], "outer loop runs at most %s times (standard: 8)" % (m.group(1) if m else "?"))
-    m = re.search(r"\(\(φ\(0\) \+ 1\) > (\d+)\)", blob)
+    m = re.search(r"\((\d+) < \(φ\(0\) \+ 1\)\)", blob)  # canonical spelling of `counter + 1 > N`
     ctx.ob("R02.1", "constant/adoption-inner-loop", bool(m) and int(m.group(1)) == SPEC["adoption_inner_loop_limit"], "inner loop counter threshold > %s (standard: greater than 3)" % (m.group(1) if m else "?"))
     key, cf = nfq.cells(ctx, TB, "::create_formatting_element_for")
     blob = " ".join(" ".join(pc["guards"]) for pc in cf)
-    m = re.search(r">= (\d+)\)", blob)
+    m = None
+    for pc in cf:
+        for a, op, b, v, g in comparisons(pc["guards"]):
+            if op == "<" and b.isdigit():  # canonical spelling of `count >= N` is `!(count < N)`
+                m = re.match(r"(\d+)", b)
     ctx.ob("R02.1", "constant/noahs-ark", bool(m) and int(m.group(1)) == SPEC["noahs_ark_limit"], "Noah's Ark clause triggers at >= %s equal entries (standard: three)" % (m.group(1) if m else "?"))
     n += 3
     ctx.floor("R02.1", "tables-and-constants", n, 19)
